@@ -17,9 +17,10 @@ afterwards; `history` = what the first evaluation said).  None of these changes 
 Wave 1 (`C??-1`, `C??-2`): realistic slips that need something specific to manifest. Wave 2 (`C??-h1`, `C??-h2`): the authors were
 additionally told that a property-based harness with small random inputs exists and asked for changes it would plausibly miss.
 Waves 3 and 4 (`C??-u1`, `C??-u2`): the authors were given a description of everything the harness generated after the previous
-wave and asked for a change that needs a different mechanism.  DESIGN.md §6 describes what each wave led to.
+wave and asked for a change that needs a different mechanism.  Wave 5 (`C??-w5`): as wave 1 (property text and worktree only), with a
+hint at the sentences of the property that earlier waves had addressed least.  DESIGN.md §6 describes what each wave led to.
 """
-WAVES = [("Wave 1", ("-1", "-2")), ("Wave 2 (adversarial)", ("-h1", "-h2")), ("Wave 3", ("-u1",)), ("Wave 4", ("-u2",))]
+WAVES = [("Wave 1", ("-1", "-2")), ("Wave 2 (adversarial)", ("-h1", "-h2")), ("Wave 3", ("-u1",)), ("Wave 4", ("-u2",)), ("Wave 5", ("-w5",))]
 metas = {}
 for f in glob.glob(os.path.join(HERE, "*", "meta.json")):
     m = json.load(open(f))
